@@ -316,7 +316,7 @@ impl C14 {
     }
     fn random_runs(tier: Tier) -> u64 {
         match tier {
-            Tier::Quick => 30_000,
+            Tier::Quick => 100_000,
             Tier::Thorough => 2_000_000,
         }
     }
@@ -353,7 +353,7 @@ impl Check for C14 {
         CheckInfo {
             id: "C14",
             level: "fault_enumeration",
-            rule: "one case = a typed template (page tree; name tree + number tree + outlines; Type0/CID/simple fonts with /W, /Differences, ToUnicode; colour spaces with all four function types; stream /Length references, predictors, LZW, CCITT/DCT image parameters; hand-written object stream with /Extends under an xref stream; two-revision files with classic and stream sections; /Encrypt dictionaries; the 'rich' document) + structure-aware at-rest faults written through the harness's writer: retarget (every reference field x every object incl. itself, object 0 and an undefined number), boundary (every numeric field x {-1, 0, 1, 2^31-1, 2^32-1, 2^64-1}), nest (25 levels), stream /Length reference retargeted, hostile /Size /Prev (incl. self-loop) /Root /W /Index /Length of trailer and xref stream; x {strict, tolerant} x {cached, uncached} x {2 MiB, 8 MiB stack}; walked by the C01 walker under the same meters in a supervised worker process. Enumerated part: the complete single-fault space of all templates (both tiers); plus seeded cases with 2-3 simultaneous faults (30 000 quick, 2 000 000 thorough). Non-trivial = outcome differs from the unfaulted template; distinct = hash of (template, faults, configuration)",
+            rule: "one case = a typed template (page tree; name tree + number tree + outlines; Type0/CID/simple fonts with /W, /Differences, ToUnicode; colour spaces with all four function types; stream /Length references, predictors, LZW, CCITT/DCT image parameters; hand-written object stream with /Extends under an xref stream; two-revision files with classic and stream sections; /Encrypt dictionaries; the 'rich' document) + structure-aware at-rest faults written through the harness's writer: retarget (every reference field x every object incl. itself, object 0 and an undefined number), boundary (every numeric field x {-1, 0, 1, 2^31-1, 2^32-1, 2^64-1}), nest (25 levels), stream /Length reference retargeted, hostile /Size /Prev (incl. self-loop) /Root /W /Index /Length of trailer and xref stream; x {strict, tolerant} x {cached, uncached} x {2 MiB, 8 MiB stack}; walked by the C01 walker under the same meters in a supervised worker process. Enumerated part: the complete single-fault space of all templates (both tiers); plus seeded cases with 2-3 simultaneous faults (100 000 quick, 2 000 000 thorough). Non-trivial = outcome differs from the unfaulted template; distinct = hash of (template, faults, configuration)",
             assumptions: vec![
                 "planting the hostile structure is generation (stated as such); the simulation part is the resource side: stack size, allocator cap and meters, log-event budget, worker process death".into(),
                 "same resource bounds as C01".into(),
